@@ -156,7 +156,30 @@ func checkDecimalValue(t *core.T, units int64) {
 	}
 	if rv, err := evalText(string(d.MarshalCedar())); err != nil || !rv.Equal(Decimal(units)) {
 		t.Fail("decimal-cedar-text-roundtrip", string(d.MarshalCedar()), fmt.Sprint(units), fmt.Sprint(rv.Key(), err))
+	} // alternative spellings of the same value: leading zeros in the integer part (any number),
+	// trailing zeros in the fraction (up to four digits in all)
+	for _, alt := range decimalSpellings(s) {
+		cmpParse(t, "decimal", alt, ParseDecimal, implDecimal)
+		if rv, ok := ParseDecimal(alt); ok && rv.I != units {
+			t.Fail("harness-decimal-spelling", alt, fmt.Sprint(units), fmt.Sprint(rv.I))
+		}
 	}
+}
+
+func decimalSpellings(s string) []string {
+	neg := strings.HasPrefix(s, "-")
+	body := strings.TrimPrefix(s, "-")
+	ip, fp, _ := strings.Cut(body, ".")
+	sign := ""
+	if neg {
+		sign = "-"
+	}
+	out := []string{sign + "0" + ip + "." + fp, sign + strings.Repeat("0", 19) + ip + "." + fp, sign + strings.Repeat("0", 40) + ip + "." + fp}
+	for len(fp) < 4 {
+		fp += "0"
+		out = append(out, sign+ip+"."+fp)
+	}
+	return out
 }
 
 func decimalSmall() *core.Family {
@@ -768,7 +791,9 @@ func goConversions() *core.Family {
 
 func durationSubsets() *core.Family {
 	us := []string{"d", "h", "m", "s", "ms"}
-	qs := []string{"0", "1", "59", "1000", "106751991167", "9223372036854775807", "9223372036854775808", "01"}
+	qs := []string{"0", "1", "59", "1000", "106751991167", "9223372036854775807", "9223372036854775808", "01",
+		// quantities written with many leading zeros: the value counts, not the number of digits
+		"00000000000000000001", "09223372036854775807", "000000000000000000000000000059"}
 	// all 32 subsets x quantity per position pattern (one quantity index per run) x sign, plus all ordered pairs of units
 	var strs []string
 	for mask := 0; mask < 32; mask++ {
